@@ -15,6 +15,7 @@ VARIABLES x, tid, l, status,
 tvars == <<x, tid, l, status, jv>>
 
 ASSUME \A i \in 1..Len(Logs) : TLCSet(i, <<0, "ok">>)
+ASSUME Crc5TableOk
 
 TInit == /\ x = TxInit
          /\ tid \in 1..Len(Logs)
@@ -24,7 +25,7 @@ TInit == /\ x = TxInit
 
 TNext == /\ status = "ok"
          /\ l <= Len(Logs[tid])
-         /\ jv' = Judge(x, Logs[tid][l])
+         /\ \E y \in {EffOf(x, Logs[tid][l])} : jv' = JudgeE(x, y, Logs[tid][l])
          /\ status' = IF jv'.f # "ok" THEN jv'.f
                        ELSE IF l = Len(Logs[tid]) /\ jv'.n.st # "idle" THEN "end_packet_incomplete" ELSE "ok"
          /\ x' = jv'.n
